@@ -102,8 +102,10 @@ def w_tables(job):
     if mp:
         lvals = [None] * mp + lvals
         rvals = [None] * mp + rvals[:1] + [None] + rvals[1:]
-    L = mkframe(lvals, pres, prefix='l')
-    R = mkframe(rvals, pres, prefix='r')
+    xl = {'x': ['v%d' % i for i in range(len(lvals))]} if job.get('proj') else None
+    xr = {'x': ['w%d' % i for i in range(len(rvals))]} if job.get('proj') else None
+    L = mkframe(lvals, pres, prefix='l', extra_cols=xl)
+    R = mkframe(rvals, pres, prefix='r', extra_cols=xr)
     lkeys, rkeys = L['id'].tolist(), R['id'].tolist()
     tok = make_tokenizer(spec)
     if n_jobs != 1:
